@@ -18,6 +18,6 @@ def run(chk, tier):
         k, b = (r.structured(32), r.structured(16)) if i % 3 == 0 else (r.bytes(32), r.bytes(16))
         ops.append(f"beltraw {hx(k)} {hx(b)}")
         chk.case(("beltraw", hx(k), hx(b)))
-    chk.run_family(["default", "kuzsoft", "kuzcompact"], ops)
+    chk.run_family(["default", "kuzsoft", "kuzcompact"], ops, cross=True)
     conf.require_models(chk, NAMES)
 
